@@ -710,6 +710,20 @@ pub fn c16_programs(tier: &str) -> Vec<Program> {
         ));
         v.push(with_main("CTL-region", o, vec![], vec![vec![K::StopExploring.into(), fadd(1, 0, MO::Sc), K::Explore.into(), fadd(0, 0, MO::Sc)], vec![swap(0, 1, MO::Sc), swap(1, 2, MO::Sc)]], vec![], vec![]));
     }
+    // one thread uses two thread-local keys, in either order: the order in which its destructors
+    // run (part of the iteration signature) must not depend on which model touched the keys first
+    {
+        use crate::ir::*;
+        for flavour in [false, true] {
+            let o = Objs { atomics: vec![0], tls: vec![flavour, flavour], ..Default::default() };
+            for (a, b) in [(0usize, 1usize), (1, 0)] {
+                v.push(with_main("C16-tls-order", o.clone(), vec![], vec![vec![K::TlsWith { k: a }.into(), K::TlsWith { k: b }.into(), fadd(0, 1, MO::Sc)], vec![fadd(0, 1, MO::Sc)]], vec![], vec![]));
+            }
+            if tier != "quick" || !flavour {
+                v.push(with_main("C16-tls-order-main", o.clone(), vec![K::TlsWith { k: 1 }.into(), K::TlsWith { k: 0 }.into()], vec![vec![fadd(0, 1, MO::Sc)], vec![fadd(0, 1, MO::Sc)]], vec![], vec![]));
+            }
+        }
+    }
     v
 }
 
